@@ -7,6 +7,7 @@ import (
 	"path"
 	"path/filepath"
 	"strconv"
+	"strings"
 	"sync"
 
 	"go.uber.org/zap"
@@ -158,6 +159,20 @@ func writeCategoryNameFile(catName, dirName string) error {
 	return nil
 }
 
+// validateKeyItems rejects bucket keys whose items cannot be used as the names of
+// directories below the root directory.
+func validateKeyItems(categories, items []string) error {
+	if len(items) != len(categories) {
+		return fmt.Errorf("bucket key has %d items for %d categories", len(items), len(categories))
+	}
+	for _, item := range items {
+		if item == "" || item == "." || item == ".." || strings.ContainsAny(item, "/\\\x00") {
+			return fmt.Errorf("invalid item %q in bucket key", item)
+		}
+	}
+	return nil
+}
+
 // AddTimeBucket adds a (possibly) new data item to a rootpath. Takes an existing catalog directory and
 // adds the new data item to that data directory. This is used only for a root category directory.
 func (d *Directory) AddTimeBucket(tbk *io.TimeBucketKey, f *io.TimeBucketInfo) (err error) {
@@ -166,6 +181,9 @@ func (d *Directory) AddTimeBucket(tbk *io.TimeBucketKey, f *io.TimeBucketInfo) (
 
 	catkeySplit := tbk.GetCategories()
 	datakeySplit := tbk.GetItems()
+	if err = validateKeyItems(catkeySplit, datakeySplit); err != nil {
+		return err
+	}
 
 	dirname := d.GetPath()
 	for i, dataDirName := range datakeySplit {
